@@ -19,4 +19,4 @@ Extraction "model.ml"
   world0 step probe1 live_count run_hist
   ssize_s total_s shape
   set_handle_new set_handle_shorten new_definite_string_op
-  s3_0 step3 run_hist3.
+  s3_0 step3 run_hist3 ptrs3 set_allocs.
